@@ -37,6 +37,10 @@ func TestVerifC01Child(t *testing.T) {
 		return
 	}
 	cfg := c03Config("forward")
+	// every query name is also rendered in its text form: by a regexp entry of a domain set that the first rule consults, and by the query log
+	cfg.DomainSets = append(cfg.DomainSets, DomainSetConfig{Tag: "c01re", Files: []string{vTmpFile("c01_re.txt", "regexp:^never-matches-anything\\.invalid$\n")}})
+	cfg.Rules = append([]RuleConfig{{Domain: "c01re", Reject: 3}}, cfg.Rules...)
+	cfg.Log.Queries = true
 	v, err := vNewRouter(cfg, "u1")
 	if err != nil {
 		fmt.Println("CHILD-ERROR", err)
@@ -111,7 +115,13 @@ func c01Malformed() [][]byte {
 	counts[4], counts[5], counts[6], counts[7] = 0xFF, 0xFF, 0xFF, 0xFF
 	rdlen := refdns.Query(2, refdns.N("a"), 1, 1)
 	rdlen.Ar = []refdns.RR{refdns.OPT(1232, 0, []byte{0, 8, 0, 200, 1})}
+	// well-formed but extreme: names of the maximum length made of octets that need escaping in the text form (\DDD, \., \\)
+	long := func(fill byte) []byte {
+		l := func(n int) string { return string(bytes.Repeat([]byte{fill}, n)) }
+		return refdns.Query(0x0102, refdns.N(l(63), l(63), l(63), l(61)), 1, 1).Encode(false)
+	}
 	return [][]byte{
+		long(0x01), long('.'), long('\\'), long(0xFF), long('a'),
 		{}, {0}, q[:11], q[:len(q)-1], q[:len(q)-3], loop, hidden, counts, rdlen.Encode(false),
 		bytes.Repeat([]byte{0xFF}, 100), bytes.Repeat([]byte{0x3F}, 600), append(append([]byte(nil), q[:12]...), bytes.Repeat([]byte{63, 'a'}, 200)...),
 		bytes.Repeat([]byte{0}, 12), append(append([]byte(nil), q...), 1, 2, 3),
